@@ -205,8 +205,10 @@ def check_pair(case, col: Collector) -> dict:
         return stats
     if got != "ok":
         stats["raised"] = True
+        import re
+        msg = re.sub(r"\d{6,}", "<implicit id>", str(err))
         bad("raises", f"raises-without-terminal-conflict:{got}:{tagk}",
-            f"no terminal-label conflict, observed {got}: {err}; expected a conjunction", repr(err))
+            f"no terminal-label conflict, observed {got}: {msg}; expected a conjunction", repr(err))
         return stats
     # ---- names: unique, fresh ----------------------------------------------------------
     old_names = {l.name for l in h1.edge_labels()} | {l.name for l in h2.edge_labels()}
@@ -452,7 +454,9 @@ def run_bounded(ctx: Ctx) -> Report:
         n = max(1, min(len(cases), ctx.jobs * 4))
         chunks = [cases[i::n] for i in range(n)]
         if ctx.jobs > 1 and len(cases) > 64:
-            with multiprocessing.get_context("fork").Pool(ctx.jobs) as pool:
+            import gc
+            gc.collect(); gc.freeze()            # keep the workers' collections off the inherited heap (copy-on-write storms)
+            with multiprocessing.get_context("fork").Pool(min(ctx.jobs, 8)) as pool:
                 res = pool.map(_worker, chunks)
         else:
             res = [_worker(ch) for ch in chunks]
